@@ -79,7 +79,6 @@ M = [
  ("c10-start-err-keeps-tx", "C10", "client.go", "\t\tif !c.delete(msg.TransactionID) {", "\t\tif false {"),
  # C11
  ("c11-f6-revert", "C11", "client.go", "buff.buf = append(buff.buf[:0], transaction.raw...)", "buff.buf = buff.buf[:copy(buff.buf[:cap(buff.buf)], transaction.raw)]"),
- ("c11-backoff-plus2", "C11", "client.go", "return now.Add(time.Duration(t.attempt+1) * t.rto)", "return now.Add(time.Duration(t.attempt+2) * t.rto)"),
  ("c11-raw-alias", "C11", "client.go", "t.raw = append(t.raw[:0], msg.Raw...)", "t.raw = msg.Raw"),
  ("c11-rto-read-late", "C11", "client.go", "timeOut = transaction.nextTimeout(now)", "timeOut = now.Add(time.Duration(transaction.attempt+1) * time.Duration(atomic.LoadInt64(&c.rto)))"),
  ("c11-collect-not-after", "C11", "agent.go", "if t.deadline.Before(gcTime) {", "if !t.deadline.After(gcTime) {"),
@@ -110,6 +109,8 @@ M = [
  ("dbg-checksize-ge", "C05", "checks_debug.go", "func CheckSize(a AttrType, got, expected int) error {\n\tif got == expected {", "func CheckSize(a AttrType, got, expected int) error {\n\tif got >= expected {"),
  ("dbg-hmac-prefix", "C04", "checks_debug.go", "if hmac.Equal(got, expected) {", "if len(got) > 0 && len(got) <= len(expected) && hmac.Equal(got, expected[:len(got)]) {"),
  ("dbg-fingerprint-lowbyte", "C05", "checks_debug.go", "func checkFingerprint(got, expected uint32) error {\n\tif got == expected {", "func checkFingerprint(got, expected uint32) error {\n\tif uint8(got) == uint8(expected) {"),
+ ("c15-rto-nonatomic-read", "C15", "client.go", "t.rto = time.Duration(atomic.LoadInt64(&c.rto))", "t.rto = time.Duration(c.rto)"),
+ ("c15-closed-unlocked-read", "C15", "client.go", "\tc.mux.RLock()\n\tclosed := c.closed\n\tc.mux.RUnlock()\n\tif closed {\n\t\treturn ErrClientClosed\n\t}\n\tif handler != nil {", "\tclosed := c.closed\n\tif closed {\n\t\treturn ErrClientClosed\n\t}\n\tif handler != nil {"),
 ]
 
 def sh(cmd, cwd=None, timeout=3600):
